@@ -245,4 +245,4 @@ def get(ctx, fam):
         f = families_extra.get(ctx, fam)
     _CACHE[key] = f
     return f
-ALL_FAMILIES = ["general", "replies", "epcfg", "attrs", "generic", "alias", "names", "shadow", "wide", "release"]
+ALL_FAMILIES = ["general", "replies", "epcfg", "attrs", "generic", "alias", "names", "shadow", "wide", "release", "renamed"]
